@@ -721,7 +721,7 @@ def run(run, tier, seed, replay=None):
     # flatname
     run_flat(run, seed, 300 if quick else 4000)
     # adversarial gen_design
-    nbase = 110 if quick else 1200
+    nbase = 110 if quick else 2400
     designs, nren, nskip = [], 0, 0
     k = 0
     while len(designs) < 2 * nbase:
@@ -742,7 +742,7 @@ def run(run, tier, seed, replay=None):
     run.coverage["streams"]["adversarial"]["skipped_more_than_%d_terminals" % MAX_TERMINALS] = nskip
     run.sample(dict(stream="adversarial", design=designs[len(designs) // 2]))
     # structured
-    nbase = 90 if quick else 900
+    nbase = 90 if quick else 1800
     designs = []
     k = 0
     while len(designs) < 2 * nbase:
